@@ -355,8 +355,12 @@ def c07_3(ctx):
             ok = isinstance(v, ast.Call) and len(v.args) == 2 and not v.keywords
             if ok:
                 f = deref(ctx, comp, v.func, r)
-                ok = unparse(f) == 'ExpressionNode._operations[self.token_type]' and isinstance(v.args[0], ast.Name) and v.args[0].id in lnames \
-                    and isinstance(v.args[1], ast.Name) and v.args[1].id == rname
+                def _opd(a):
+                    # the operand itself, or its conversion (which conversion under which operator is judged above)
+                    if isinstance(a, ast.Call) and isinstance(a.func, ast.Name) and a.func.id in ('int', 'Fraction') and len(a.args) == 1 and not a.keywords:
+                        a = a.args[0]
+                    return a.id if isinstance(a, ast.Name) else None
+                ok = unparse(f) == 'ExpressionNode._operations[self.token_type]' and _opd(v.args[0]) in lnames and _opd(v.args[1]) == rname
             ctx.check(ok, 'value:binary-result-is-the-table-operator', comp.site(r),
                       'once both operands are evaluated, the value returned is the operator of the _operations table applied to (left, right) - there is no other way to a quotient, remainder or product',
                       unparse(r)[:120])
